@@ -265,6 +265,11 @@ def c02(ctx):
     cfg2 = vault_cfg(["A"], ["x", "y", "E"] if th else ["x", "E"], 5 if th else 4)
     wd2, run2, ns2, ne2 = vault_graph(ctx, "c02deep", cfg2, workers=4)
     tot2, samples2 = vault_walk(ctx, wd2, "c02deep", shards=4 if th else 2, env={"VERIF_PROBE_EVERY": 1})
+    # the same graphs once more with the observer kept away from the live instance (it reads a copy of the file): whatever the
+    # instance caches is then refreshed only by the calls of the walk itself, so a stale answer to info / list is not hidden
+    tot3, _ = vault_walk(ctx, wd2, "c02deep-quiet", shards=4 if th else 2, env={"VERIF_PROBE_EVERY": 1, "VERIF_OBSERVE_COPY": 1})
+    tot4, _ = vault_walk(ctx, wd, "c02-quiet", shards=16 if th else 4, env={"VERIF_PROBE_EVERY": 4, "VERIF_OBSERVE_COPY": 1})
+    tot2 = merge_tot(tot2, tot3, tot4)
     cov = {"states": ns + ns2, "transitions": tot.get("targets_covered", 0) + tot2.get("targets_covered", 0),
            "traces_validated_against_impl": 0,
            "samples": samples[:3] + samples2[:2],
